@@ -1632,6 +1632,9 @@ def _get_indexed_var_str(var: str, idx: Union[tuple, str, list], var_length: int
             var = f"reshape({var}, 1)"
         return f"index({var}, {idx})"
     if len(idx) > 0:
+        if var_length == 1 and all(i == 0 for i in idx):
+            # scalar variable projected to several targets: it is broadcast, indexing a scalar would fail
+            return var
         if len(idx) == var_length:
             identical = True
             for i1, i2 in zip(idx, list(np.arange(0, var_length))):
